@@ -128,10 +128,66 @@ def fresh_variants(fam, run, g, opts, logic=None):
         mir.step(cmd, r)
     return out
 
+def cnf_history(g, rng, n_atoms=6, levels=4):
+    """clause-level incremental history: base-level units, then per level a batch of short clauses (some already
+    satisfied by the units, some dense over two or three atoms so that refuting them needs decisions), checks, pops"""
+    tb = g.tb
+    atoms = []
+    for a in list(g.bools) + g.atom_pool(n_atoms):
+        if a not in atoms and a not in (tb.true(), tb.false()):
+            atoms.append(a)
+    cmds = [{"c": "assert", "t": b, "nm": "", "inner": []} for b in g.box_asserts()]
+    def lit(a): return tb.app("not", [a]) if rng.random() < 0.5 else a
+    theory = [a for a in atoms if a not in g.bools] or atoms
+    units = rng.sample(theory, min(len(theory), rng.randint(1, 2)))
+    if len(atoms) - len(units) < 2:
+        units = units[:1]
+    unit_lits = [lit(a) for a in units]
+    for u in unit_lits:
+        cmds.append({"c": "assert", "t": u, "nm": "", "inner": []})
+    depth = 0
+    for lv in range(levels):
+        if rng.random() < 0.8:
+            cmds.append({"c": "push", "n": 1}); depth += 1
+        mode = rng.choice(["satisfied", "dense", "random", "dense"])
+        rest = [a for a in atoms if a not in units]
+        if mode == "satisfied":
+            for _ in range(rng.randint(1, 3)):
+                others = [lit(a) for a in rng.sample(rest, 2)]
+                cmds.append({"c": "assert", "t": tb.app("or", [rng.choice(unit_lits)] + others), "nm": "", "inner": []})
+        elif mode == "dense":
+            sub = rng.sample(rest, 2)
+            combos = [(False, False), (False, True), (True, False), (True, True)]
+            rng.shuffle(combos)
+            for sa, sb in combos[:rng.choice([3, 4, 4])]:
+                la = tb.app("not", [sub[0]]) if sa else sub[0]
+                lb = tb.app("not", [sub[1]]) if sb else sub[1]
+                cmds.append({"c": "assert", "t": tb.app("or", [la, lb]), "nm": "", "inner": []})
+        else:
+            for _ in range(rng.randint(2, 5)):
+                k = min(len(atoms), rng.choice([2, 3]))
+                cmds.append({"c": "assert", "t": tb.app("or", [lit(a) for a in rng.sample(atoms, k)]), "nm": "", "inner": []})
+        cmds.append({"c": "check-sat"})
+        if rng.random() < 0.3:
+            cmds.append({"c": "check-sat"})
+        if depth > 0 and rng.random() < 0.6:
+            cmds.append({"c": "pop", "n": 1}); depth -= 1
+    cmds.append({"c": "check-sat"})
+    return cmds
+
 def b_incremental(job):
     """C04: incremental script with queries between checks vs fresh solver per check."""
     rng = random.Random(job["seed"])
     g = G.Gen(rng, job["logic"])
+    if job.get("mode") == "cnf":
+        cfg = job.get("cfg", "c0")
+        opts = _opts(rng.choice(["c0", "c0", "cores", "proofs"])) + _opts(cfg)
+        cmds = G.preamble(g, opts) + cnf_history(g, rng, n_atoms=job.get("n_atoms", 6))
+        fam = C.Family(g)
+        run = fam.add_run("s", cfg, "main", cmds)
+        for sid, cm in fresh_variants(fam, run, g, _opts(cfg)):
+            fam.add_run(sid, cfg, "fresh", cm)
+        return _result(fam, job)
     track = job.get("track", rng.choice(["models", "cores", "itp", "proofs", "none"]))
     if g.arr and track == "models":
         track = "none"
